@@ -590,16 +590,24 @@ def run_cases(exe, cases, timeout_case=20, shards=16, env=None, tag="impl"):
         if env:
             e.update(env)
         cmd = [exe, path] + ([str(timeout_case)] if tag.startswith("impl") else [])
-        procs.append((path, subprocess.Popen(cmd, stdout=subprocess.PIPE, stderr=subprocess.PIPE, env=e)))
+        # stdout goes to a file: with a pipe, every shard but the one being read blocks as soon as its 64 kB buffer is full
+        # and the shards run one after the other
+        of = open(path + ".out", "wb")
+        procs.append((path, of, subprocess.Popen(cmd, stdout=of, stderr=subprocess.DEVNULL, env=e)))
     out = {}
-    for path, p in procs:
+    deadline = time.time() + timeout_case * 200 + 600
+    for path, of, p in procs:
         try:
-            o, er = p.communicate(timeout=timeout_case * 200 + 600)
+            p.wait(timeout=max(1, deadline - time.time()))
         except subprocess.TimeoutExpired:
             p.kill()
-            o, er = p.communicate()
+            p.wait()
+        of.close()
+        with open(path + ".out", "rb") as fh:
+            o = fh.read()
         out.update(parse_output(o.decode(errors="replace")))
         os.unlink(path)
+        os.unlink(path + ".out")
     return out
 
 
